@@ -40,7 +40,10 @@ type Op struct {
 	ClientClose      bool          `json:"client_close,omitempty"`       // use Close() instead of Cancel()
 	DeadlineMs       int64         `json:"deadline_ms,omitempty"`        // Exec context deadline, fake time
 	Append           *store.Series `json:"append,omitempty"`
-	WrapMode         int           `json:"wrap_mode,omitempty"` // 0 passive, 1 Series() before first Next, 2 probe after end, 3 both
+	WrapMode         int           `json:"wrap_mode,omitempty"`  // 0 passive, 1 Series() before first Next, 2 probe after end, 3 both
+	Store            *store.Cfg    `json:"store,omitempty"`      // per-op storage behaviour (overrides the case's)
+	ExtraSeed        int64         `json:"extra_seed,omitempty"` // != 0: unrelated, non-matching series are added to the storage
+	Tag              string        `json:"tag,omitempty"`
 }
 
 // Case is a complete, self-contained simulated execution: running it is a pure function of this
